@@ -1222,3 +1222,122 @@ NOT_APPLICABLE = [
     dict(property_id=f"C{i:02d}", reason="check under construction in this build phase; not yet claimed (see DESIGN.md §11 build order)")
     for i in range(1, 21) if f"C{i:02d}" not in PROPS
 ]
+
+# ---------------------------------------------------------------------------------------------------------------
+# Honesty pass after two independent read-only audits of the theorem statements (audit-A: C01-C10, audit-B: C11-C20):
+# gaps that were real but unlisted, and theorems that are true by construction of the model, are named here.
+def _add(p, key, items):
+    PROPS[p].setdefault(key, [])
+    PROPS[p][key] = list(PROPS[p][key]) + list(items)
+
+_add("C01", "partial", [
+    "number-range clause: `numbersInRange` in c01_accepts_iff is `(Spec.Canon.numOf cfg p).isSome`, and numOf IS the configured conversion "
+    "(Model.Num.convertDefault / convertRoundtrip) - for this clause the theorem says 'the converter does not fail', not 'within finite f64 "
+    "range'. Under float_roundtrip the two coincide (c07_nearest_even + c07_all_sources: rejected exactly when the nearest-even rounding "
+    "is infinite). In the default build they do NOT: the crate (and the model) reject some literals whose value is below f64::MAX by less "
+    "than 2 ulp (17976931348623156225e289, 1.7976931348623158e308 rounds to f64::MAX) and accept some above 2^1024 "
+    "(179769313486231591e291, finding C08-F1); proved band: rejected => exact >= 2^1024-2^970-2^972, exact >= 2^1024+2^972+2^965 => "
+    "rejected (c08p_rejected_only_near_threshold, c08p_overflow_direction_partial). The driver's C01 oracle uses the same numOf, so it "
+    "cannot see this band; C08's exact-rational oracle does (findings C08-F1 and the within-2-ulp rejections are reported there)",
+    "fuel: numValue maps the conversion's outOfFuel to NumberOutOfRange; that outcome is excluded by c14_no_fuel / c08p_link, not by this theorem",
+])
+_add("C02", "partial", [
+    "for float literals `canon` is the configured conversion itself (Spec.Canon.numOf = Model.Num.convert*): c02_value_is_canon says nothing "
+    "about float accuracy (C07: nearest-even under float_roundtrip, c07_all_sources; C08: 5 ulp in the default build)",
+])
+_add("C04", "partial", [
+    "c04_value_ap / c04_reparse_ap and every c04_* theorem under arbitrary_precision / raw_value are theorems about the machine model, which "
+    "reads an object keyed by a private token as RFC 8259 does; the crate does not (open findings C04-ap-private-number-token, "
+    "C04-rv-private-rawvalue-token): WFValue does not exclude such keys",
+    "default build, 'f64 values that print as short literals round-trip': no theorem derives FloatsRoundTrip from c08_exact_short + "
+    "RyuShortest for short outputs; the hypothesis is carried",
+    "RyuShortest ext (hypothesis of c04_value_fr, c04_typed_fr, c07_roundtrip, ...) is a statement about the external printer ryu; no Lean "
+    "witness ext satisfying it is constructed (the stand-in ext0 of the examples prints every float as 1.5 and does not); it is exercised "
+    "on the real ryu by ops f64pr / f32pr (every exponent) and f32all (all 2^32 patterns)",
+])
+_add("C05", "partial", [
+    "two clauses of the statement have no theorem: 'a borrowed &str is a subslice and exists exactly when there are no escapes' and 'as "
+    "bytes: WTF-8 for unpaired surrogates, raw non-UTF-8 passes through' (typed String / &str / bytes targets; the raw-string automaton "
+    "stepRaw of Model.Typed is tied by ops tt / c16x only); the decode theorems are for the Value target",
+    "Model.Hex.decodeFourHex and Model.Swar.skipToEscape are standalone models of read.rs's helpers; the byte-step machine uses its own "
+    "hex4 and a naive scan (no theorem equates the machine's hex4 with Spec.Str.hex4Val; both are run against the crate)",
+])
+_add("C06", "partial", [
+    "c06_typed: for the 128-bit targets Model.TypedInt.deIntText is written as the specification minus the -0 line, so that branch of the "
+    "theorem is true by construction; the real do_deserialize_i128 / u128 is Model.Typed.deInt128, covered by c06_via_value (textInt) and "
+    "c10_typed_prefix. IntTy has ten widths (isize / usize are not separate: 64-bit target)",
+])
+_add("C07", "partial", [
+    "c07_limbs_total / c07_bhcomp_limbs_exact assume -2048 < scaled_exponent < 1024; no theorem shows that the call sites of bhcomp inside "
+    "parse_truncated_float / deFloatRoundtrip stay in that range, so c07_correct remains a statement with Bigint = Nat and the limb-level "
+    "closure is not yet composed with it (the range holds on every generated case: op lm and the f64rt families)",
+    "c07_nearest_even / c07_typed_nearest exclude by hypothesis (a) integer literals within u64 / i64 read as f64 / f32 - these are serde's "
+    "`as` casts (assumed correctly rounded; C08-F2-like double rounding cannot occur for f64, and for f32 under float_roundtrip the cast is "
+    "direct) - and (b) exponents beyond i32, covered only by c07_other_literals, which restates the exponent-overflow rule of the model "
+    "without relating it to Overflows64 / underflow",
+])
+_add("C08", "partial", [
+    "c08_f32_once is true by construction: Model.FloatDefault.Parts.toF32 is defined as toF64 then F64.toF32 off the integer path; the f32 "
+    "clause is tied to the crate by the correspondence (op f32lit) and, for typed targets, by c07_typed_f32_link (default build: "
+    "deNumber .f32 = convertDefault then serde's f32 visitor)",
+    "c08_underflow_zero requires exact <= 2^-1076; for exact values in (2^-1076, 2^-1075) - which round to 0 - no theorem says the result is "
+    "+-0 (it may be the least subnormal: within 1 ulp, covered by c08_within_5ulp)",
+])
+_add("C09", "partial", [
+    "c09_slice_reader (and with it the slice/reader half of c09_stream_offsets and c09_untyped_line_col) is close to true by construction: "
+    "Model.Machine has ONE reader abstraction and consults env.src only in the UTF-8 check of endStr and in errIdx, where every error is "
+    "`.incl`; SliceRead's and IoRead's separate string scanners (parse_str_bytes, ignore_str, decode_hex_escape) are merged in the model. "
+    "What ties the two real readers together is the three-source correspondence run (which found the two position defects 28defde, "
+    "9343bad), not this theorem. The typed theorems (c09_typed_slice_reader, over Model.Typed's explicit peek-slot positions) and the "
+    "line/column theorems (two separately modelled readers) do have content",
+    "'same message' for visitor (Data) errors: Model.Typed carries only the position of a visitor error, the wording is echoed from the crate",
+    "PeekCode contains NumberOutOfRange for every target, so for an out-of-range FLOAT the typed theorem allows 'same or +1' although the "
+    "repaired crate (9343bad) reports the same index; the untyped theorem pins it",
+])
+_add("C11", "partial", [
+    "no theorem states the converse of c11_eof_at_end: an Eof-classified error implies that the input is a proper prefix of an accepted "
+    "text (a model answering Eof on a dead input would satisfy every C11 theorem); it is evaluated by the oracles (Spec.Pos verdict in "
+    "judgePos / specHistory) on every generated case",
+    "no upper bound theorem for faults inside a string literal on byte sources (InvalidUnicodeCodePoint is reported at the closing quote: "
+    "'between the first offending byte and the end of that literal' is checked by the oracle's literalEnd only)",
+    "the tie from the machine's byte index to the readers' line/column bookkeeping (c11_reader_linecol, c11_slice_linecol) is by "
+    "correspondence (ops lc3 / lcs): the machine itself does not run Model.LineCol",
+])
+_add("C12", "partial", [
+    "typed items: no analogue of c12_values ('yields exactly those values in order with exact offsets'): per case by op tstream (value = "
+    "deTypedTop of its span)",
+    "'Eof whenever the rest is a proper prefix of a value, Syntax otherwise': only the Eof direction is a theorem (C10's stream-prefix "
+    "theorems); 'Syntax otherwise' is evaluated by the grammar oracle specHistory",
+    "'an undelimited bare scalar yields an error' and 'byte_offset() of an error item is the first byte of that value' hold by the model's "
+    "definition of next(); they are tied to the crate by correspondence only",
+    "typed streams: every item is read at depth 0 by construction of Model.StreamTyped (budget restoration for typed items is assumed "
+    "there; proved for Value / IgnoredAny items: c14_stream_depth_restored)",
+])
+_add("C13", "partial", [
+    "c13_write_prefix / c13_write_is_prefix are true by definition of Model.IoFault.writeFault (= take m of the concatenated buffers): "
+    "write_all's loop, short writes, Interrupted and 'the serializer stops at the first failing write' are not modelled for io::Write "
+    "(they are for fmt::Write: c03_display_fault) - the writer clause is carried by the correspondence op wfault (every m, short-write "
+    "and Interrupted patterns, recorded buffers)",
+    "c13_read is near-definitional (runFault = feed with end-of-input replaced by Io); its content is the modelling claim that every state "
+    "asks for another byte, tied by op rfault at every k",
+    "the error KIND is not part of the models' Io outcome ('carrying that error's kind' is checked by the harness: IO:<kind>); "
+    "c13_typed_fault alone does not bound the error index - that follows from c13_typed_fault_eq + typed_within_input",
+])
+_add("C14", "partial", [
+    "no theorem says that every string / char / key of a TYPED result (TVal) is valid UTF-8 (c14_utf8 is about the Value machine); the one "
+    "real defect of this clause (bool-key panic, fixed afff6b0) was on the typed path - covered by ops tt / c16 with the UTF-8 verdict",
+])
+_add("C16", "partial", [
+    "depth: c16_text_agrees_* assume depth <= 127; beyond it from_value succeeds and the text path fails (open finding C16-text-depth-limit, "
+    "generated by op c16x)",
+    "the exclusion hasArrayPayload (struct variant written as an array) over-approximates: it excludes every value containing anywhere an "
+    "object {name: [..]} whose key is the name of ANY struct variant of the schema (e.g. s = (Map<String,Vec<u8>>, enum {S{x}}), "
+    "v = [{\"S\":[1]}, {\"S\":{\"x\":true}}] agrees on the crate but is outside the theorem and dropped by the c16 oracle)",
+    "both legs compare success / failure and the value; error messages are not compared",
+    "c16_agree_partial restates c16_owned_borrowed",
+])
+_add("C20", "partial", [
+    "'as_str(), Display and re-serialisation reproduce the literal exactly; parse-then-serialise changes nothing but whitespace': holds by "
+    "the serializer model's definition on Num.lit + c03_display_number; no text -> value -> text theorem is listed (c04_value_ap is value "
+    "-> text -> value)",
+])
